@@ -299,7 +299,7 @@ class Parser:
             while True:
                 if self.at('::') and self.peek(1).kind == 'id':
                     self.next(); parts.append(self.next().text); continue
-                if self.at('<') and targs is None and ('::'.join(parts) in ('std::make_shared', 'std::numeric_limits', 'std::shared_ptr', 'std::unique_lock', 'std::lock_guard')):
+                if self.at('<') and targs is None and ('::'.join(parts) in ('std::make_shared', 'std::numeric_limits', 'std::shared_ptr', 'std::unique_lock', 'std::lock_guard', 'std::min', 'std::max')):
                     self.next()
                     targs = [self.parse_type()]
                     self.split_shr()
@@ -368,6 +368,23 @@ class Parser:
                 self.i = save; return None
             name = self.next().text
             nt = self.peek()
+            if nt.kind == 'p' and nt.text == '[':
+                # local C array:  T name[N] [{...} | = {...}] ;
+                self.next()
+                dim = self.parse_expr()
+                self.expect(']')
+                line = self.peek().line
+                init = None
+                if self.accept('='):
+                    pass
+                if self.accept('{'):
+                    init = []
+                    while not self.at('}'):
+                        init.append(self.parse_assign())
+                        if not self.accept(','): break
+                    self.expect('}')
+                self.expect(';', 'array declaration end')
+                return ('arraydecl', ty, name, dim, init, line)
             if nt.kind != 'p' or nt.text not in ('=', ';', '(', '{'):
                 self.i = save; return None
             line = nt.line
